@@ -148,10 +148,38 @@ pub fn strategy(_tier: Tier) -> BoxedStrategy<Case> {
         .boxed()
 }
 
+/// pids announced to a pid-lifecycle monitor during the last executed case: (spawned, terminated)
+static PID_EVENTS: Mutex<(Vec<u64>, Vec<u64>)> = Mutex::new((Vec::new(), Vec::new()));
+
+fn start_pid_monitor() -> (ActorCell, DetachedPorts) {
+    let (cell, ports) = ractor::verif::detached_cell::<Dummy>(None).expect("monitor cell");
+    ractor::verif::set_status(&cell, ractor::ActorStatus::Running);
+    ractor::registry::pid_registry::monitor(cell.clone());
+    (cell, ports)
+}
+
+fn stop_pid_monitor(mon: (ActorCell, DetachedPorts)) {
+    let (cell, mut ports) = mon;
+    ractor::registry::pid_registry::demonitor(cell.get_id());
+    let mut ev = (vec![], vec![]);
+    while let Some(e) = ports.try_recv_supervision() {
+        if let SupervisionEvent::PidLifecycleEvent(p) = e {
+            match p {
+                ractor::registry::PidLifecycleEvent::Spawn(c) => ev.0.push(c.get_id().pid()),
+                ractor::registry::PidLifecycleEvent::Terminate(c) => ev.1.push(c.get_id().pid()),
+            }
+        }
+    }
+    ractor::verif::set_status(&cell, ractor::ActorStatus::Stopped);
+    *PID_EVENTS.lock().unwrap() = ev;
+}
+
 pub fn execute(case: &Case, sched: Sched) -> E2Run<RN> {
     let n = CASE_NO.fetch_add(1, std::sync::atomic::Ordering::Relaxed);
     let sh = Arc::new(Shared { prefix: format!("c10_{}_{}_", std::process::id(), n), own: Mutex::new(HashMap::new()) });
+    let mon = start_pid_monitor();
     let run = run_threads(sh.clone(), case.programs.clone(), sched, exec);
+    stop_pid_monitor(mon);
     // release whatever is still registered
     for (_, v) in sh.own.lock().unwrap().drain() {
         for (cell, _ports, exited) in v {
@@ -274,6 +302,20 @@ pub fn check(case: &Case, run: &E2Run<RN>) -> Result<(bool, Vec<String>), Violat
         return Err(viol("C10/wait-after-exit-blocked", "wait() on a cell whose exit had completed blocked forever"));
     }
     linearizable(case, &run.recs).map_err(|e| viol("C10/not-linearizable", e))?;
+    // a refused registration has no side effects: the pid-lifecycle monitor hears only about cells whose
+    // construction succeeded (the monitor was installed before the threads started)
+    {
+        let ok_pids: std::collections::HashSet<u64> = run.recs.iter().filter_map(|r| if let RN::RegOk(p) = r.res { Some(p) } else { None }).collect();
+        let ev = PID_EVENTS.lock().unwrap();
+        if let Some(p) = ev.0.iter().chain(ev.1.iter()).find(|p| !ok_pids.contains(p)) {
+            return Err(viol("C10/pid-event-for-refused-spawn", format!("the pid-lifecycle monitor was told about pid {p}, which belongs to no successful registration of this history (refused registrations: {})", run.recs.iter().filter(|r| r.res == RN::RegErr).count())));
+        }
+        for p in &ok_pids {
+            if ev.0.iter().filter(|x| *x == p).count() != 1 {
+                return Err(viol("C10/pid-spawn-event-count", format!("pid {p} was registered once but announced {} times to the pid-lifecycle monitor", ev.0.iter().filter(|x| *x == p).count())));
+            }
+        }
+    }
     // non-trivial: two register intervals on the same name overlap, or a release overlaps a register
     let recs = &run.recs;
     let op = |r: &Rec<RN>| &case.programs[r.tid][r.idx];
@@ -324,7 +366,7 @@ impl Part for C10E2 {
         run_case(case, want_trace, Sched::Bytes(case.schedule.clone())).0
     }
     fn rule() -> &'static str {
-        "generated programs for 2-4 controlled OS threads over 2 names: spawn-time registration (the real ActorCell::new), exit (the real lifecycle cleanup), where_is, where_is_pid, registered(), wait; <=10 operations per history; preemption at every verif_point! in registration, set_status clean-up and notify; oracle = brute-force linearizability against the sequential name-table specification (Register -> Ok|AlreadyRegistered, release inside the exit, Lookup); non-trivial = two registrations of one name, or a registration and an exit, overlap with >=1 preemption"
+        "generated programs for 2-4 controlled OS threads over 2 names: spawn-time registration (the real ActorCell::new), exit (the real lifecycle cleanup), where_is, where_is_pid, registered(), wait; <=10 operations per history; preemption at every verif_point! in registration, set_status clean-up and notify; oracle = brute-force linearizability against the sequential name-table specification (Register -> Ok|AlreadyRegistered, release inside the exit, Lookup), plus: a pid-lifecycle monitor installed before the threads start hears about every successfully registered pid exactly once and about no other pid (a refused registration has no side effects); non-trivial = two registrations of one name, or a registration and an exit, overlap with >=1 preemption"
     }
 }
 
@@ -418,7 +460,9 @@ impl Part for C10Free {
         for _ in 0..case.rounds {
             let n = CASE_NO.fetch_add(1, std::sync::atomic::Ordering::Relaxed);
             let sh = Arc::new(Shared { prefix: format!("c10f_{}_{}_", std::process::id(), n), own: Mutex::new(HashMap::new()) });
+            let mon = start_pid_monitor();
             let run = crate::e2::run_threads_free(sh.clone(), c.programs.clone(), case.spin.clone(), exec);
+            stop_pid_monitor(mon);
             for (_, v) in sh.own.lock().unwrap().drain() {
                 for (cell, _ports, exited) in v {
                     if !exited {
